@@ -256,6 +256,13 @@ def run(ctx):
                 r4.check(bool(dch) and not stray, "sigint:decides-nothing-itself", "the SIGINT arm signals no exit on its own reading of the counter",
                          "the SIGINT arm signals the exit channel itself (%s), on a counter that lags behind the pings still queued: a client that has just logged in and started a transaction - its +1 not yet taken in - is cut off, "
                          "COMMIT never reaches the server" % [c.where() for c in stray][:1])
+            # `SIGTERM exits immediately` (and SIGINT starts the shutdown, and clients are accepted) at every moment: the loop that hears the signals awaits nothing
+            # that can take long. A reload connects to servers (validate_config, min_pool_size) for up to connect_timeout each: it runs in a task of its own, the
+            # SIGHUP arm only spawns it (D74)
+            inline_rl = [c for c in m.calls("pgcat::config::reload_config", "pgcat::pool::ConnectionPool::from_config") if c.block in loop]
+            r4.check(not inline_rl, "loop-awaits-no-reload", "main's select loop does not await reload_config / from_config itself",
+                     "main's select loop awaits %s inside one of its arms: while the reload connects to a slow server the loop polls nothing - SIGTERM does not end the process, SIGINT starts no shutdown, nobody is accepted, "
+                     "for up to connect_timeout per server" % sorted({c.name.split("::")[-1] for c in inline_rl}), inline_rl[0].where() if inline_rl else "")
             r4.check(exit_break, "exit-channel:break", "the exit channel arm leaves the loop", "no arm leaves the loop on the exit channel")
             r4.check(drain_ok, "drain:last-client", "the drain arm signals exit when the client count reaches 0", "the drain arm no longer signals exit at total_clients == 0")
     sd = ctx.body("pgcat::admin::shutdown::{closure#0}", r4)
